@@ -594,9 +594,9 @@ class Sim:
         return acc
 
 
-def pure_value(spec, j):
+def pure_value(spec, j, limit="current"):
     """Value of element j under the current definitions with no cache at all: ('ok', v) | ('err', kind, origin)."""
-    s = Sim(spec, {}, (), False, spec.limit_small)
+    s = Sim(spec, {}, (), False, spec.limit_small if limit == "current" else limit)
     r = s.top(j)
     if r[0] == "ok":
         return ("ok", r[1])
